@@ -21,6 +21,60 @@ Definition stmt_eqb (a b : stmt) : bool :=
   | _, _ => false
   end.
 
+(** ** T2 up to meaning: two statements that parse, bind to the same table and agree once qualifiers are
+       erased behave alike on EVERY table content (so an implementation that, say, qualifies more references
+       than the model still agrees with it). *)
+Definition entry_equiv (a b : string * qexpr) : bool :=
+  String.eqb (fst a) (fst b) && expr_eqb (erase (snd a)) (erase (snd b)).
+Definition where_equiv (a b : qexpr) : bool := expr_eqb (erase a) (erase b).
+Definition stmt_equiv (name : string) (cs : list string) (a b : stmt) : bool :=
+  stmt_syntax_ok a && stmt_syntax_ok b
+  && String.eqb (stmt_target a) name && String.eqb (stmt_target b) name
+  && stmt_binds name cs a && stmt_binds name cs b
+  && match a, b with
+     | SUpdate _ s1 w1, SUpdate _ s2 w2 => list_eqb entry_equiv s1 s2 && opt_eqb where_equiv w1 w2
+     | SDelete _ w1, SDelete _ w2 => opt_eqb where_equiv w1 w2
+     | _, _ => false
+     end.
+
+Lemma entries_equiv_eq s1 : forall s2, list_eqb entry_equiv s1 s2 = true -> erase_set s1 = erase_set s2.
+Proof.
+  induction s1 as [|[k1 v1] s1 IH]; intros [|[k2 v2] s2] H; simpl in H; try discriminate; [reflexivity|].
+  apply andb_true_iff in H. destruct H as [H1 H2]. unfold entry_equiv in H1. simpl in H1.
+  apply andb_true_iff in H1. destruct H1 as [Hk Hv]. apply String.eqb_eq in Hk. apply expr_eqb_eq in Hv.
+  simpl. rewrite Hk, Hv, (IH _ H2). reflexivity.
+Qed.
+
+Lemma where_equiv_sel cs w1 w2 : opt_eqb where_equiv w1 w2 = true -> forall r, sel cs w1 r = sel cs w2 r.
+Proof.
+  destruct w1 as [p1|], w2 as [p2|]; simpl; intros H r; try discriminate; [|reflexivity].
+  unfold where_equiv in H. apply expr_eqb_eq in H. rewrite H. reflexivity.
+Qed.
+
+Lemma filter_ext'' {A} (P Q : A -> bool) l : (forall x, P x = Q x) -> filter P l = filter Q l.
+Proof. intro H. induction l as [|x l IH]; simpl; [reflexivity|]. rewrite H, IH. reflexivity. Qed.
+
+Theorem stmt_equiv_sound name cs a b :
+  stmt_equiv name cs a b = true -> forall rows, exec name cs rows a = exec name cs rows b.
+Proof.
+  unfold stmt_equiv. intros H rows.
+  apply andb_true_iff in H. destruct H as [H Hm].
+  apply andb_true_iff in H. destruct H as [H Hbb].
+  apply andb_true_iff in H. destruct H as [H Hba].
+  apply andb_true_iff in H. destruct H as [H Htb].
+  apply andb_true_iff in H. destruct H as [H Hta].
+  apply andb_true_iff in H. destruct H as [Hsa Hsb].
+  unfold exec. rewrite Hsa, Hsb, Hta, Htb, Hba, Hbb. simpl.
+  destruct a as [t1 s1 w1|t1 w1], b as [t2 s2 w2|t2 w2]; try discriminate; simpl in *.
+  - apply andb_true_iff in Hm. destruct Hm as [Hs Hw].
+    rewrite (entries_equiv_eq _ _ Hs). f_equal. f_equal.
+    + apply map_ext. intro r. rewrite (where_equiv_sel cs _ _ Hw r). reflexivity.
+    + f_equal. apply filter_ext''. apply (where_equiv_sel cs _ _ Hw).
+  - f_equal. f_equal.
+    + apply filter_ext''. intro r. rewrite (where_equiv_sel cs _ _ Hm r). reflexivity.
+    + f_equal. apply filter_ext''. apply (where_equiv_sel cs _ _ Hm).
+Qed.
+
 Record execobs := mkExec {
   x_err : option err;          (* exception class of execute(), mapped to the small enum *)
   x_rows : list row;           (* table after execute(), in row-id order, read from the raw connection *)
@@ -45,7 +99,8 @@ Record case := mkCase {
 Definition b2s (b : bool) : string := if b then "1" else "0".
 
 (** verdict string, one character per question:
-    0 t2      exported tree = model's statement          ('x' = nothing exported)
+    0 t2      exported tree = model's statement, or equivalent to it for all table contents
+              (stmt_equiv_sound)                          ('x' = nothing exported)
     1 lazy    table unchanged and no statement sent by the build, as the model says
     2 build   build outcome (ok / error class) = model
     3 exec    execute() outcome (error class | rows in row-id order, Count, statements sent) = model
@@ -58,7 +113,7 @@ Definition check (c : cfg) (k : case) : string :=
   let cs := k_cols k in
   let m := compile c st (k_call k) in
   let t2 := match k_exported k, m with
-            | Some s, inr s' => b2s (stmt_eqb s s')
+            | Some s, inr s' => b2s (stmt_eqb s s' || stmt_equiv (k_name k) cs s s')
             | Some _, inl _ => "0"
             | None, _ => "x"
             end in
